@@ -20,6 +20,7 @@ ParamMaps == {<<>>, [a |-> "1"], [server_encoding |-> "LATIN1", b |-> ""],
 
 Cfgs == {[auth |-> a, tls |-> "nil", params |-> p, version |-> v, mw |-> <<"ok">>, term |-> "none", limit |-> 8192] :
             a \in {"none", "clear"}, p \in ParamMaps, v \in {"", "15.2"}}
+        \cup {[auth |-> "none", tls |-> "cert", params |-> [a |-> "1"], version |-> "", mw |-> <<"ok">>, term |-> "none", limit |-> 8192]}
 
 Keys == {"user", "database", "k"}
 Vals == {"x", ""}
@@ -37,14 +38,17 @@ Push(m) == ClientSend(m) /\ hist' = Append(hist, [k |-> "send", m |-> m])
 
 MCSend ==
     /\ Quiet /\ phase # "closed"
-    /\ \/ /\ phase = "startup" /\ ssl = "none" /\ Push([t |-> "SSLRequest"])
-       \/ /\ phase = "startup" /\ Push([t |-> "Cancel"])
-       \/ /\ phase = "startup" /\ \E kvs \in KvLists, tm \in BOOLEAN : Push([t |-> "Startup", term |-> tm, kvs |-> kvs])
+    /\ \/ /\ phase = "startup" /\ ssl = "none" /\ Push([t |-> "SSLRequest", stuffed |-> FALSE])
+       \/ /\ phase = "startup" /\ ssl # "tlsp" /\ Push([t |-> "Cancel"])      \* before or after an SSL negotiation ('N', or inside TLS)
+       \/ /\ phase = "startup" /\ ssl # "tlsp" /\ (cfg.tls # "cert" \/ ssl = "tls")
+          /\ \E kvs \in (IF cfg.tls = "cert" THEN {<<[k |-> "user", v |-> "x"]>>} ELSE KvLists), tm \in BOOLEAN :
+                Push([t |-> "Startup", term |-> tm, kvs |-> kvs])
        \/ /\ phase = "auth" /\ Push([t |-> "p", pw |-> "good", pwd |-> "good"])
-       \/ /\ phase = "ready" /\ Len(SelectSeq(hist, LAMBDA e : e.m.t = "Q")) = 0 /\ Push([t |-> "Q", q |-> Q1])
+       \/ /\ phase = "ready" /\ Len(SelectSeq(hist, LAMBDA e : e.k = "send" /\ e.m.t = "Q")) = 0 /\ Push([t |-> "Q", q |-> Q1])
 
+MCTls == Quiet /\ TLSDone /\ hist' = Append(hist, [k |-> "tls"])
 MCServer == ServerStep /\ UNCHANGED hist
-MCNext == MCSend \/ MCServer
+MCNext == MCSend \/ MCTls \/ MCServer
 MCSpec == MCInit /\ [][MCNext]_mcvars
 View == vars
 Cover == (hist' # hist) => ExportRecord([cfg |-> cfg, steps |-> hist'])
